@@ -255,32 +255,30 @@ def rule_catalog(ck):
     if not (isinstance(strip_shape(oe), ast.Attribute) and strip_shape(oe).attr == 'event_count' and
             isinstance(strip_shape(oe).value, ast.Name) and strip_shape(oe).value.id == fps[1]):
         probs.append('the observed value is `%s`, not %s.event_count' % (u(oe), fps[1]))
-    # the distribution: a list appended with catalog.event_count inside `for ... in forecast`
-    if not isinstance(sim, ast.Name):
-        probs.append('the distribution argument is `%s`' % u(sim))
+    # the distribution: one entry per synthetic catalog, its event count - an append loop or a comprehension over the forecast,
+    # unconditional and complete (the expander presents an append loop as the comprehension it stands for)
+    se = ex.expand(sim) if sim is not None else None
+    while isinstance(se, ast.Call) and call_name(se) in ('builtins.list', 'numpy.array', 'numpy.asarray') and se.args:
+        se = se.args[0]
+    if not isinstance(se, (ast.ListComp, ast.GeneratorExp)) or len(se.generators) != 1:
+        probs.append('the distribution `%s` is not built by one pass over `%s` (one entry per synthetic catalog, appended unconditionally, '
+                     'no early exit)' % (u(sim)[:60] if sim is not None else '?', fps[0]))
     else:
-        apps = [n for n in all_nodes(g) if isinstance(n, ast.Call) and isinstance(n.func, ast.Attribute)
-                and n.func.attr == 'append' and isinstance(n.func.value, ast.Name) and n.func.value.id == sim.id]
-        if len(apps) != 1:
-            probs.append('%d appends to the distribution list' % len(apps))
+        gen = se.generators[0]
+        it = gen.iter
+        if isinstance(it, ast.Call) and call_name(it) == 'builtins.enumerate' and it.args:
+            it = it.args[0]
+            tvar = gen.target.elts[1] if isinstance(gen.target, ast.Tuple) and len(gen.target.elts) == 2 else None
         else:
-            a = apps[0]
-            loops = loops_around(a)
-            val = ex.expand(a.args[0]) if a.args else None
-            okloop = len(loops) == 1 and isinstance(loops[0], ast.For) and fps[0] in u(loops[0].iter)
-            okval = val is not None and isinstance(val, ast.Attribute) and val.attr == 'event_count' and \
-                is_marker(val.value, '__item__') or (val is not None and isinstance(val, ast.Attribute) and
-                                                     val.attr == 'event_count' and is_marker(val.value, '__elem__'))
-            if not okloop:
-                probs.append('sizes are not appended in a single loop over `%s`' % fps[0])
-            if not okval:
-                probs.append('the appended value is `%s`, not the event count of the loop catalog' % u(a.args[0]))
-            from .common import guards_of
-            gs = [t for t, pol in guards_of(a, loops[0] if loops else None)]
-            if gs:
-                probs.append('the append is conditional on `%s`: not every synthetic catalog contributes its size' % u(gs[0]))
-            if loops and any(isinstance(n, (ast.Break, ast.Return)) for s in loops[0].body for n in ast.walk(s)):
-                probs.append('the loop over the forecast can stop early (partial pass)')
+            tvar = gen.target
+        if not (isinstance(it, ast.Name) and it.id == fps[0]):
+            probs.append('sizes are not collected in a single loop over `%s` (iterates `%s`)' % (fps[0], u(gen.iter)[:50]))
+        if gen.ifs:
+            probs.append('the entry is conditional on `%s`: not every synthetic catalog contributes its size' % u(gen.ifs[0]))
+        elt = strip_shape(se.elt)
+        if not (isinstance(elt, ast.Attribute) and elt.attr == 'event_count' and isinstance(tvar, ast.Name) and isinstance(elt.value, ast.Name)
+                and elt.value.id == tvar.id):
+            probs.append('the collected value is `%s`, not the event count of the loop catalog' % u(se.elt)[:70])
     (o.fail('; '.join(probs)) if probs else o.ok('get_quantiles(sizes of all synthetic catalogs, observed size)'))
     for flds in result_fields(P, g, ex):
         q = flds.get('quantile')
